@@ -396,7 +396,7 @@ pub struct DeployCfg {
 }
 
 pub const TRADERS: [&str; 5] = ["alice", "bob", "carol", "dave", "whale"];
-pub const OTHERS: [&str; 7] = ["liquidator", "owner", "pauser", "newowner", "stranger", "bank", "feepool2"];
+pub const OTHERS: [&str; 8] = ["liquidator", "owner", "pauser", "newowner", "stranger", "bank", "feepool2", "guardian"];
 
 pub fn pow10(d: u8) -> u128 {
     10u128.pow(d as u32)
